@@ -128,7 +128,8 @@ Definition gcase_model_ok (c : gcase) : bool :=
 
 (* ---------------------------------------------------------------- (e) end to end through the real proxy *)
 (* what the client must observe, derived from the origin's script alone *)
-Record xexp := { x_code : N; x_fields : list (str * list str); x_absent : list str; x_body : str; x_trailers : list (str * list str) }.
+Record xexp := { x_code : N; x_reason : option str; x_fields : list (str * list str); x_absent : list str; x_body : str; x_trailers : list (str * list str) }.
+(* x_reason: the origin's reason phrase (None: not compared — net/http's server writes its own in the http.Handler variant) *)
 (* x_absent: hop-by-hop field names (RFC 7230 6.1 and those nominated by the origin's Connection field) that must not reach the client *)
 Record exch := {
   e_closing : bool;         (* the proxy was shutting down when the response was written (p.closing()) *)
@@ -177,6 +178,7 @@ Definition values_match (got : list (str * str)) (want : str * list str) : bool 
   list_str_eqb (field_values (fst want) got) (snd want).
 Definition obs_matches (o : obs) (x : xexp) : bool :=
   (o_code o =? x_code x) &&
+  match x_reason x with Some t => str_eqb (o_reason o) t | None => true end &&
   forallb (values_match (o_fields o)) (x_fields x) &&
   forallb (fun n => match field_values n (o_fields o) with [] => true | _ => false end) (x_absent x) &&
   str_eqb (o_body o) (x_body x) &&
